@@ -328,4 +328,273 @@ theorem merged_bookmark_from_other (s : Store) (tb to : RefTarget) :
 theorem merged_bookmark_same_change (s : Store) (t tb : RefTarget) :
     mergeRefTargets s t tb t = t := mergeRefTargets_same s t tb
 
+theorem nodup_insertNew {a : List Nat} (x : Nat) (h : a.Nodup) : (insertNew a x).Nodup := by
+  by_cases hx : x ∈ a
+  · rw [insertNew_of_mem hx]; exact h
+  · rw [insertNew_of_not_mem hx]
+    rw [List.nodup_append]
+    refine ⟨h, by simp, ?_⟩
+    intro y hy z hz
+    simp only [List.mem_singleton] at hz
+    subst hz
+    intro hyz; subst hyz; exact hx hy
+
+theorem nodup_union {a : List Nat} (b : List Nat) (h : a.Nodup) : (union a b).Nodup := by
+  induction b generalizing a with
+  | nil => exact h
+  | cons x b ih => rw [union_cons]; exact ih (nodup_insertNew x h)
+
+theorem nodup_dedup (l : List Nat) : (dedup l).Nodup := nodup_union l List.nodup_nil
+
+theorem nodup_insertAsc {x : Nat} {l : List Nat} (hx : x ∉ l) (h : l.Nodup) : (insertAsc x l).Nodup := by
+  induction l with
+  | nil => simp [insertAsc]
+  | cons y ys ih =>
+    unfold insertAsc
+    by_cases hxy : x ≤ y
+    · simp only [hxy, if_true]
+      exact List.nodup_cons.mpr ⟨hx, h⟩
+    · simp only [hxy, if_false]
+      have hy := List.nodup_cons.mp h
+      refine List.nodup_cons.mpr ⟨?_, ih (fun hm => hx (by simp [hm])) hy.2⟩
+      rw [mem_insertAsc]
+      intro hc
+      rcases hc with hc | hc
+      · subst hc; exact hx (by simp)
+      · exact hy.1 hc
+
+theorem nodup_sortAsc {l : List Nat} (h : l.Nodup) : (sortAsc l).Nodup := by
+  unfold sortAsc
+  induction l with
+  | nil => simp
+  | cons x xs ih =>
+    have hx := List.nodup_cons.mp h
+    simp only [List.foldr_cons]
+    exact nodup_insertAsc (fun hm => hx.1 (mem_sortAsc.mp hm)) (ih hx.2)
+
+theorem nodup_filterMap_names {β : Type} (f : Nat → Option β) (names : List Nat) (h : names.Nodup) :
+    ((names.filterMap fun n => (f n).map fun v => (n, v)).map (·.1)).Nodup := by
+  induction names with
+  | nil => simp
+  | cons n ns ih =>
+    have hn := List.nodup_cons.mp h
+    simp only [List.filterMap_cons]
+    cases hf : f n with
+    | none => simpa [hf] using ih hn.2
+    | some v =>
+      simp only [hf, Option.map_some, List.map_cons]
+      refine List.nodup_cons.mpr ⟨?_, ih hn.2⟩
+      intro hm
+      simp only [List.mem_map, List.mem_filterMap, Option.map_eq_some_iff] at hm
+      obtain ⟨e, ⟨n', hn', v', _, rfl⟩, he⟩ := hm
+      simp only at he
+      subst he
+      exact hn.1 hn'
+
+theorem diffNamed_eq {β : Type} [DecidableEq β] (a b : List (Nat × β)) :
+    diffNamed a b = (sortAsc (dedup (a.map (·.1) ++ b.map (·.1)))).filterMap fun n =>
+      (if a.lookup n = b.lookup n then none else some (a.lookup n, b.lookup n)).map fun v => (n, v) := by
+  unfold diffNamed
+  simp only
+  congr 1
+  funext n
+  by_cases h : a.lookup n = b.lookup n <;> simp [h]
+
+theorem diffNamed_nodup {β : Type} [DecidableEq β] (a b : List (Nat × β)) :
+    ((diffNamed a b).map (·.1)).Nodup := by
+  rw [diffNamed_eq]
+  exact nodup_filterMap_names _ _ (nodup_sortAsc (nodup_dedup _))
+
+theorem split_of_mem_nodup {γ : Type} (l : List (Nat × γ)) (h : (l.map (·.1)).Nodup) (e : Nat × γ)
+    (he : e ∈ l) :
+    ∃ l1 l2, l = l1 ++ e :: l2 ∧ (∀ x ∈ l1, x.1 ≠ e.1) ∧ (∀ x ∈ l2, x.1 ≠ e.1) := by
+  induction l with
+  | nil => cases he
+  | cons y ys ih =>
+    simp only [List.map_cons] at h
+    have hy := List.nodup_cons.mp h
+    simp only [List.mem_cons] at he
+    rcases he with rfl | he
+    · refine ⟨[], ys, rfl, by simp, ?_⟩
+      intro x hx hxe
+      exact hy.1 (by rw [← hxe]; exact List.mem_map.mpr ⟨x, hx, rfl⟩)
+    · obtain ⟨l1, l2, hl, h1, h2⟩ := ih hy.2 he
+      refine ⟨y :: l1, l2, by rw [hl]; rfl, ?_, h2⟩
+      intro x hx
+      simp only [List.mem_cons] at hx
+      rcases hx with rfl | hx
+      · intro hxe
+        exact hy.1 (by rw [hxe]; exact List.mem_map.mpr ⟨e, he, rfl⟩)
+      · exact h1 x hx
+
+theorem lookup_some_mem_keys {β : Type} {l : List (Nat × β)} {k : Nat} {v : β}
+    (h : l.lookup k = some v) : k ∈ l.map (·.1) := by
+  induction l with
+  | nil => simp [List.lookup] at h
+  | cons e l ih =>
+    obtain ⟨k', v'⟩ := e
+    simp only [List.lookup] at h
+    cases hk : k == k' with
+    | true => have : k = k' := by simpa using hk
+              simp [this]
+    | false => simp only [hk] at h; simp [ih h]
+
+theorem diffNamed_mem {β : Type} [DecidableEq β] (a b : List (Nat × β)) (n : Nat)
+    (h : a.lookup n ≠ b.lookup n) : (n, a.lookup n, b.lookup n) ∈ diffNamed a b := by
+  unfold diffNamed
+  simp only [List.mem_filterMap]
+  refine ⟨n, ?_, by simp [h]⟩
+  rw [mem_sortAsc, mem_dedup, List.mem_append]
+  cases ha : a.lookup n with
+  | some v => exact Or.inl (lookup_some_mem_keys ha)
+  | none =>
+    cases hb : b.lookup n with
+    | some v => exact Or.inr (lookup_some_mem_keys hb)
+    | none => rw [ha, hb] at h; exact absurd rfl h
+
+/-- **`refs_from_changer`**: a bookmark whose value differs between the base and the other side
+    becomes `merge_ref_targets(own value, base value, other value)` (absent = not in the map). -/
+theorem mergeBookmarks_changed' (r : Repo) (base other : View) (b : Nat)
+    (h : base.bookmarks.lookup b ≠ other.bookmarks.lookup b) :
+    (r.mergeBookmarks base other).view.getBookmark b =
+      mergeRefTargets r.store (r.view.getBookmark b) (optTarget (base.bookmarks.lookup b))
+        (optTarget (other.bookmarks.lookup b)) := by
+  obtain ⟨l1, l2, hl, h1, h2⟩ := split_of_mem_nodup _ (diffNamed_nodup base.bookmarks other.bookmarks) _
+    (diffNamed_mem base.bookmarks other.bookmarks b h)
+  exact mergeBookmarks_changed r base other b l1 l2 _ _ hl h1 h2
+
+/-- replacements still to be pushed: entries whose key has not been visited yet -/
+def pendingSize (m : Mapping) (visited : List Nat) : Nat :=
+  ((m.filter fun e => !visited.contains e.1).map fun e => e.2.newParentIds.length).sum
+
+theorem pendingSize_nil (m : Mapping) : pendingSize m [] = mappingSize m := by
+  unfold pendingSize mappingSize
+  have : (m.filter fun e => !([] : List Nat).contains e.1) = m := by
+    simp
+  rw [this]
+
+theorem pendingSize_cons_le (m : Mapping) (v : List Nat) (x : Nat) :
+    pendingSize m (x :: v) ≤ pendingSize m v := by
+  unfold pendingSize
+  induction m with
+  | nil => simp
+  | cons e m ih =>
+    by_cases h1 : v.contains e.1 = true
+    · have h2 : (x :: v).contains e.1 = true := by
+        simp only [List.contains_eq_mem, List.mem_cons, decide_eq_true_eq] at h1 ⊢; exact Or.inr h1
+      simp only [List.filter_cons, h1, h2, Bool.not_true, Bool.false_eq_true, if_false]; exact ih
+    · by_cases h2 : (x :: v).contains e.1 = true
+      · simp only [List.filter_cons, h1, h2, Bool.not_true, Bool.not_false, Bool.false_eq_true,
+          if_false, if_true, List.map_cons, List.sum_cons]
+        omega
+      · simp only [List.filter_cons, h1, h2, Bool.not_false, if_true, List.map_cons, List.sum_cons]
+        omega
+
+theorem pendingSize_lookup (m : Mapping) (v : List Nat) (x : Nat) (rw : Rewrite)
+    (hx : x ∉ v) (hl : m.lookup x = some rw) :
+    pendingSize m (x :: v) + rw.newParentIds.length ≤ pendingSize m v := by
+  unfold pendingSize
+  induction m with
+  | nil => simp [List.lookup] at hl
+  | cons e m ih =>
+    obtain ⟨k, r⟩ := e
+    simp only [List.lookup] at hl
+    by_cases hk : x = k
+    · subst hk
+      simp only [beq_self_eq_true] at hl
+      injection hl with hl; subst hl
+      have h1 : ¬ v.contains x = true := by simpa using hx
+      have h2 : (x :: v).contains x = true := by simp
+      simp only [List.filter_cons, h1, h2, Bool.not_true, Bool.not_false, Bool.false_eq_true,
+        if_false, if_true, List.map_cons, List.sum_cons]
+      have := pendingSize_cons_le m v x
+      unfold pendingSize at this
+      omega
+    · have hb : (x == k) = false := by simpa using hk
+      simp only [hb] at hl
+      have := ih hl
+      by_cases h1 : v.contains k = true
+      · have h2 : (x :: v).contains k = true := by
+          simp only [List.contains_eq_mem, List.mem_cons, decide_eq_true_eq] at h1 ⊢; exact Or.inr h1
+        simp only [List.filter_cons, h1, h2, Bool.not_true, Bool.false_eq_true, if_false]; exact this
+      · have h2 : ¬ (x :: v).contains k = true := by
+          simp only [List.contains_eq_mem, List.mem_cons, decide_eq_true_eq, not_or] at h1 ⊢
+          exact ⟨fun h => hk h.symm, h1⟩
+        simp only [List.filter_cons, h1, h2, Bool.not_false, if_true, List.map_cons, List.sum_cons]
+        omega
+
+/-- **fuel adequacy of `rwLoop`**: above `|stack| + pending replacements` the amount of fuel does
+    not matter, so the fuel the model passes (`|olds| + Σ|replacements| + 1`) never cuts the loop
+    short: a `none` is always one of the source's `assert!`s. -/
+theorem rwLoop_fuel_irrelevant (m : Mapping) (pred : Rewrite → Bool) :
+    ∀ (f1 f2 : Nat) (stack visited out : List Nat),
+      stack.length + pendingSize m visited < f1 → stack.length + pendingSize m visited < f2 →
+      rwLoop m pred f1 stack visited out = rwLoop m pred f2 stack visited out := by
+  intro f1
+  induction f1 with
+  | zero => intro f2 stack visited out h; omega
+  | succ f1 ih =>
+    intro f2 stack visited out h1 h2
+    match f2, h2 with
+    | f2 + 1, h2 =>
+      match stack with
+      | [] => simp [rwLoop]
+      | x :: rest =>
+        unfold rwLoop
+        simp only [List.length_cons] at h1 h2
+        by_cases hv : visited.contains x = true
+        · simp only [hv, if_true]
+          exact ih f2 rest visited out (by omega) (by omega)
+        · simp only [hv]
+          have hx : x ∉ visited := by simpa using hv
+          have hle := pendingSize_cons_le m visited x
+          cases hg : m.getIf pred x with
+          | none => exact ih f2 rest (x :: visited) _ (by omega) (by omega)
+          | some rw =>
+            simp only
+            by_cases he : rw.newParentIds.isEmpty = true
+            · simp [he]
+            · simp only [he]
+              have := pendingSize_lookup m visited x rw hx (getIf_get hg)
+              exact ih f2 _ (x :: visited) out (by simp only [List.length_append]; omega)
+                (by simp only [List.length_append]; omega)
+
+/-- the fuel of `rewritten_ids_with` is adequate: any larger fuel gives the same result -/
+theorem rewrittenIdsWith_fuel (m : Mapping) (pred : Rewrite → Bool) (olds : List Nat) (extra : Nat) :
+    rwLoop m pred (olds.length + mappingSize m + 1 + extra) olds [] [] =
+      rwLoop m pred (olds.length + mappingSize m + 1) olds [] [] := by
+  apply rwLoop_fuel_irrelevant <;> rw [pendingSize_nil] <;> omega
+
+theorem mergeWcFold_other (name : Nat) (l : List (Nat × Option Nat × Option Nat)) (v : View)
+    (hl : ∀ e ∈ l, e.1 ≠ name) :
+    assocGet (l.foldl (fun (v : View) (e : Nat × Option Nat × Option Nat) =>
+      v.mergeWcCommit e.1 e.2.1 e.2.2) v).wc name = assocGet v.wc name := by
+  induction l generalizing v with
+  | nil => rfl
+  | cons e l ih =>
+    simp only [List.foldl_cons]
+    rw [ih _ (fun e' he' => hl e' (by simp [he']))]
+    exact mergeWcCommit_other v e.1 name e.2.1 e.2.2 (Ne.symm (hl e (by simp)))
+
+/-- **`wc_rule` for the whole working-copy phase of `merge_view`**: a workspace whose commit is the
+    same in the base and the other view is left alone; otherwise it gets `mergeWcValue` of the own,
+    base and other commit (`none` = workspace absent). -/
+theorem mergeWcs_spec (v base other : View) (name : Nat) :
+    assocGet (v.mergeWcs base other).wc name =
+      if base.wc.lookup name = other.wc.lookup name then assocGet v.wc name
+      else mergeWcValue (assocGet v.wc name) (base.wc.lookup name) (other.wc.lookup name) := by
+  unfold View.mergeWcs
+  by_cases h : base.wc.lookup name = other.wc.lookup name
+  · simp only [h, if_true]
+    apply mergeWcFold_other
+    intro e he hb
+    obtain ⟨h1, h2, h3⟩ := diffNamed_entry he
+    rw [hb] at h1 h2
+    exact h3 (by rw [h1, h2, h])
+  · simp only [h, if_false]
+    obtain ⟨l1, l2, hl, h1, h2⟩ := split_of_mem_nodup _ (diffNamed_nodup base.wc other.wc) _
+      (diffNamed_mem base.wc other.wc name h)
+    rw [hl, List.foldl_append, List.foldl_cons, mergeWcFold_other name l2 _ h2, mergeWcCommit_get,
+      mergeWcFold_other name l1 v h1]
+
 end JjModel.Repo
